@@ -6,6 +6,6 @@ CONSTANTS
   Starts = {0, 7}
   HdrLen = 32
   EntLen = 12
-  FlushFirst = FALSE
+  FlushFirst = TRUE
 INVARIANTS C09 Emit
 CHECK_DEADLOCK FALSE
